@@ -595,7 +595,7 @@ class _Fail(Exception):
 
 def _call(rec, name, op, f, *a, **kw):
     """Run a kernel operation; an exception is a failed oracle of its own (mechanism '<Class>:<op>-raises')."""
-    mech = _m(name, op + "-raises") if op else name + "-raises"
+    mech = _m(name, op + "-raises") if op else name  # DFTKernel entry points: one mechanism per (method, mode)
     try:
         out = f(*a, **kw)
     except Exception as e:  # noqa
@@ -631,6 +631,10 @@ def leaf_name(sp):
     every other relation by the public class name."""
     cls, kw = sp["cls"], sp["kw"]
     nm = _Nm(cls)
+    if "inner" in sp:  # ADKernel / SpinSymKernel delegate to the wrapped kernel
+        nm.q = dict(leaf_name(sp["inner"]).q)
+        nm.q["diag-raises"] = "%s:diag" % cls
+        return nm
     q = {}
     o = kw.get("order")
     if "Poly" in cls:
@@ -645,11 +649,9 @@ def leaf_name(sp):
         if cls in _ADDITIVE_V2 and sp["hpstate"] == ["fixed", "free"]:
             q["call(eval_gradient)-raises"] = "DiffAdditiveMixin[length_scale-fixed,scale-free]"
     if cls in ("PartialRBF", "PartialARBF"):
-        # k_and_deriv of the partial kernels is one call site: all of its failure modes share a mechanism
+        # k_and_deriv of the partial kernels is one call site: all of its failure modes share one mechanism
         for r in _K_AND_DERIV_RELS:
-            q.setdefault(r, "%s:k_and_deriv" % cls) if cls == "PartialRBF" or r in _K_AND_DERIV_RELS[:2] else None
-    if cls in ("ADKernel", "SpinSymKernel"):
-        q["diag-raises"] = "%s:diag" % cls
+            q[r] = "%s:k_and_deriv" % cls
     nm.q = q
     return nm
 
@@ -1351,7 +1353,7 @@ def _run_dft(case, rec, rng):
         try:
             dk.set_control_points(blocks, reduce=reduce)
         except Exception as e:
-            rec.require("dft_set_control_points", False, mechanism="DFTKernel.set_control_points[%s]-raises" % mode,
+            rec.require("dft_set_control_points", False, mechanism="DFTKernel.set_control_points[%s]" % mode,
                         detail=dict(det, exception="%s: %s" % (type(e).__name__, str(e)[:200])))
             continue
         ctrl = np.asarray(dk.X1ctrl)
@@ -1376,9 +1378,9 @@ def _run_dft(case, rec, rng):
                 idx.append(hit[0] if hit else -1)
             is_subset = all(i >= 0 for i in idx)
             rec.require("dft_reduce_subset[%s]" % mode, is_subset and len(idx) >= 1,
-                        mechanism="DFTKernel._reduce_npts[%s]:not-a-subset" % mode, detail=det)
+                        mechanism="DFTKernel._reduce_npts[%s]" % mode, detail=det)
             if nmax is not None:
-                rec.require("dft_reduce_nmax[%s]" % mode, len(idx) <= nmax, mechanism="DFTKernel._reduce_npts[%s]:exceeds-ctrl_nmax" % mode,
+                rec.require("dft_reduce_nmax[%s]" % mode, len(idx) <= nmax, mechanism="DFTKernel._reduce_npts[%s]" % mode,
                             detail=det)
             if is_subset:
                 S = kdef(pool, pool)
@@ -1394,7 +1396,7 @@ def _run_dft(case, rec, rng):
                     except np.linalg.LinAlgError:
                         L, piv = None, np.array([-1.0])
                     rec.check("dft_reduce_pivots[%s]" % mode, max(0.0, ctol - float(np.min(piv))) / ctol, 1e-3 + 1e-9 / ctol,
-                              mechanism="DFTKernel._reduce_npts[%s]:selected-pivot-below-ctrl_tol" % mode,
+                              mechanism="DFTKernel._reduce_npts[%s]" % mode,
                               detail=dict(det, min_pivot=float(np.min(piv)), ctrl_tol=ctol))
                     if L is not None and (nmax is None or len(idx) < nmax):
                         # ... and every point not selected is represented within ctrl_tol (Schur-complement diagonal)
@@ -1402,7 +1404,7 @@ def _run_dft(case, rec, rng):
                         V = solve_triangular(L, Sn[I, :], lower=True)
                         resid = 1.0 - np.einsum("ij,ij->j", V, V)
                         rec.check("dft_reduce_residual[%s]" % mode, max(0.0, float(np.max(resid)) - ctol) / ctol, 1e-3 + 1e-9 / ctol,
-                                  mechanism="DFTKernel._reduce_npts[%s]:residual-above-ctrl_tol" % mode,
+                                  mechanism="DFTKernel._reduce_npts[%s]" % mode,
                                   detail=dict(det, max_resid=float(np.max(resid)), ctrl_tol=ctol, nsel=len(idx), npool=npool))
                         rec.tag("dft_reduced", len(idx) < npool)
         # covariance of the control points
@@ -1414,9 +1416,9 @@ def _run_dft(case, rec, rng):
         nc = Kmm.shape[0]
         sc = max(float(np.max(np.abs(np.diag(Kmm)))), 1e-300)
         rec.check("dft_kctrl_symmetry[%s]" % mode, float(np.max(np.abs(Kmm - Kmm.T))) / sc, TOL_EXACT,
-                  mechanism="DFTKernel.get_kctrl[%s]:symmetry" % mode, detail=det)
+                  mechanism="DFTKernel.get_kctrl[%s]" % mode, detail=det)
         w = np.linalg.eigvalsh(0.5 * (Kmm + Kmm.T))
-        rec.check("dft_kctrl_psd[%s]" % mode, max(0.0, -float(w[0])) / (nc * sc), TOL_PSD, mechanism="DFTKernel.get_kctrl[%s]:psd" % mode,
+        rec.check("dft_kctrl_psd[%s]" % mode, max(0.0, -float(w[0])) / (nc * sc), TOL_PSD, mechanism="DFTKernel.get_kctrl[%s]" % mode,
                   detail=dict(det, min_eig=float(w[0])))
         # kernel between samples and control points
         ns = int(rng.integers(3, 12))
@@ -1433,16 +1435,16 @@ def _run_dft(case, rec, rng):
         else:
             A = np.stack([desc(X0T[0]), desc(X0T[-1])])
             ref = kdef(A, ctrl).T
-        rec.require("dft_k_shape[%s]" % mode, kk.shape == ref.shape, mechanism="DFTKernel.get_k[%s]:shape" % mode,
+        rec.require("dft_k_shape[%s]" % mode, kk.shape == ref.shape, mechanism="DFTKernel.get_k[%s]" % mode,
                     detail=dict(det, shape=list(kk.shape), expected=list(ref.shape)))
         rec.check("dft_k[%s]" % mode, _rel(kk, ref), TOL_EXACT, mechanism="DFTKernel.get_k[%s]" % mode, detail=det)
         try:
             k2, dkd = _call(rec, "DFTKernel.get_k_and_deriv[%s]" % mode, None, dk.get_k_and_deriv, X0T)
         except _Fail:
             continue
-        rec.check("dft_k_and_deriv_value[%s]" % mode, _rel(k2, kk), TOL_EXACT, mechanism="DFTKernel.get_k_and_deriv[%s]:value" % mode, detail=det)
+        rec.check("dft_k_and_deriv_value[%s]" % mode, _rel(k2, kk), TOL_EXACT, mechanism="DFTKernel.get_k_and_deriv[%s]" % mode, detail=det)
         oks = rec.require("dft_deriv_shape[%s]" % mode, np.shape(dkd) == (nc, nspin, N0, ns),
-                          mechanism="DFTKernel.get_k_and_deriv[%s]:shape" % mode, detail=dict(det, shape=list(np.shape(dkd))))
+                          mechanism="DFTKernel.get_k_and_deriv[%s]" % mode, detail=dict(det, shape=list(np.shape(dkd))))
         if not oks:
             continue
         if mode == "POL" and nspin == 1:
@@ -1452,7 +1454,7 @@ def _run_dft(case, rec, rng):
                 continue
             gs = max(float(np.max(np.abs(dkd3))), 1e-300)
             rec.check("dft_pol_rks_vs_uks", max(_rel(k2, k3), _rel(dkd[:, 0], dkd3[:, 0], gs)), TOL_EXACT,
-                      mechanism="DFTKernel.get_k_and_deriv[POL]:nspin1-vs-duplicated-nspin2", detail=det)
+                      mechanism="DFTKernel.get_k_and_deriv[POL]", detail=det)
             fac = 0.5
         else:
             fac = 1.0
@@ -1474,7 +1476,7 @@ def _run_dft(case, rec, rng):
                     continue
                 concl += 1
                 worst = max(worst, er)
-                rec.check("dft_deriv_fd[%s]" % mode, er, TOL_FD, mechanism="DFTKernel.get_k_and_deriv[%s]:raw-feature-gradient" % mode,
+                rec.check("dft_deriv_fd[%s]" % mode, er, TOL_FD, mechanism="DFTKernel.get_k_and_deriv[%s]" % mode,
                           detail=dict(det, spin=s, raw_index=j, err=er, fd_self_err=se))
         if concl:
             rec.nontrivial("dft|%s|%d|%s" % (mode, nspin, json.dumps(_strip(sp), sort_keys=True)))
@@ -1485,27 +1487,29 @@ def _run_dft(case, rec, rng):
 
 # ------------------------------------------------------------------------------------------------ harness interface
 def gen_cases(tier, seed):
+    """One kernel per case (cases are batched per worker process by the runner), so that a finding in one kernel
+    does not remove the other kernels of a batch from the non-trivial count."""
     quick = tier == "quick"
     cases = []
     # (a) leaf sweep: every leaf class
-    nb, nk = (1, 3) if quick else (4, 10)
+    nd = 3 if quick else 40
     for ic, cls in enumerate(LEAF_TYPES):
-        for b in range(nb):
-            cases.append({"id": "leaf-%s-b%d" % (cls, b), "kind": "leaf", "cls": cls, "nk": nk, "seed": seed,
-                          "idx": 1000 + ic * 20 + b, "_threads": 1, "_timeout": 900, "_weight": nk})
+        for r in range(nd):
+            cases.append({"id": "leaf-%s-%02d" % (cls, r), "kind": "leaf", "cls": cls, "draw": r, "seed": seed,
+                          "idx": 1000 + ic * 100 + r, "_threads": 1, "_timeout": 600, "_weight": 1.0})
     # (b) random compositions
-    nt, nk = (40, 2) if quick else (240, 8)
+    nt = 100 if quick else 2000
     for i in range(nt):
-        cases.append({"id": "tree-%03d" % i, "kind": "tree", "nk": nk, "seed": seed, "idx": 5000 + i, "_threads": 1,
-                      "_timeout": 900, "_weight": 3 * nk})
+        cases.append({"id": "tree-%04d" % i, "kind": "tree", "seed": seed, "idx": 10000 + i, "_threads": 1,
+                      "_timeout": 600, "_weight": 3.0})
     # (c) DFTKernel
-    nrep, nk = (1, 2) if quick else (6, 5)
+    nrep = 3 if quick else 30
     i = 0
     for mode in ("SEP", "NPOL", "POL"):
         for nspin in (1, 2):
             for r in range(nrep):
-                cases.append({"id": "dft-%s-%d-%d" % (mode, nspin, r), "kind": "dft", "mode": mode, "nspin": nspin, "nk": nk,
-                              "seed": seed, "idx": 9000 + i, "_threads": 1, "_timeout": 900, "_weight": 2 * nk})
+                cases.append({"id": "dft-%s-%d-%02d" % (mode, nspin, r), "kind": "dft", "mode": mode, "nspin": nspin, "nk": 1,
+                              "seed": seed, "idx": 50000 + i, "_threads": 1, "_timeout": 600, "_weight": 2.0})
                 i += 1
     return cases
 
@@ -1523,27 +1527,24 @@ def _run_case(case, rec):
         _run_dft(case, rec, rng)
         return
     nset = (1, 2, 30, 30, 30, 100, 100)
-    for r in range(case["nk"]):
-        if case["kind"] == "leaf":
-            cls = case["cls"]
-            d = int(rng.integers(1, 7)) if r else 4
-            sp = None
-            while sp is None:
-                if cls == "DiffTransform":
-                    sp = gen_transform(rng, d, 0, TREE_POOL)
-                else:
-                    sp = gen_leaf(rng, cls, d)
-                d = min(d + 1, 6)
-        else:
-            d = int(rng.integers(2, 7))
-            sp = gen_tree(rng, d, int(rng.integers(1, 4)), TREE_POOL)
-            if sp["t"] == "leaf":
-                sp = {"t": "prod", "nfeat": d, "how": "op", "a": sp, "b": _pick(rng, TREE_POOL, d)}
-        nt = run_kernel(rec, rng, sp, nset)
-        if nt:
-            rec.nontrivial(json.dumps(_strip(sp), sort_keys=True)[:4000])
-        if rec.sample is None or (sp["t"] != "leaf" and rec.sample.get("depth", 0) < _depth(sp)):
-            nexp, _ = _expected_theta(sp)
-            rec.set_sample({"kind": case["kind"], "structure": _brief(sp), "depth": _depth(sp), "nfeat": sp["nfeat"],
-                            "theta_size": nexp, "kernel": _strip(sp),
-                            "fd_self_errors": {k: v for k, v in rec.notes.items() if "self" in k}})
+    if case["kind"] == "leaf":
+        cls = case["cls"]
+        d = int(rng.integers(1, 7)) if case["draw"] else 4
+        sp = None
+        while sp is None:
+            if cls == "DiffTransform":
+                sp = gen_transform(rng, d, 0, TREE_POOL)
+            else:
+                sp = gen_leaf(rng, cls, d)
+            d = min(d + 1, 6)
+    else:
+        d = int(rng.integers(2, 7))
+        sp = gen_tree(rng, d, int(rng.integers(1, 4)), TREE_POOL)
+        if sp["t"] == "leaf":
+            sp = {"t": "prod", "nfeat": d, "how": "op", "a": sp, "b": _pick(rng, TREE_POOL, d)}
+    if run_kernel(rec, rng, sp, nset):
+        rec.nontrivial(json.dumps(_strip(sp), sort_keys=True)[:4000])
+    nexp, _ = _expected_theta(sp)
+    rec.set_sample({"kind": case["kind"], "structure": _brief(sp), "depth": _depth(sp), "nfeat": sp["nfeat"],
+                    "theta_size": nexp, "kernel": _strip(sp), "oracle_max": {k: v["obs"] for k, v in rec.oracles.items() if v["obs"] > 0},
+                    "fd_self_errors": {k: v for k, v in rec.notes.items() if "self" in k}})
